@@ -168,10 +168,12 @@ fn translate_select_pipeline(
             projection.as_slice(),
             [SelectItem::UnnamedExpr(sql_ast::Expr::Value(v))] if matches!(v.value, sql_ast::Value::Null)
         );
-        if partition.is_empty() && only_placeholder {
-            projection[0] = SelectItem::UnnamedExpr(sql_ast::Expr::Value(
+        // (dialects that support zero columns have no placeholder, but an empty projection)
+        if partition.is_empty() && (only_placeholder || projection.is_empty()) {
+            projection.clear();
+            projection.push(SelectItem::UnnamedExpr(sql_ast::Expr::Value(
                 sql_ast::Value::Placeholder("COUNT(*)".to_string()).into(),
-            ));
+            )));
         }
     }
     let group_by: Vec<CId> = aggregate.map(|(part, _)| part).unwrap_or_default();
